@@ -224,9 +224,17 @@ func verifC07EBody() {
 			opts["before"] = hist[b-1].sig.String()
 			start = b
 		}
-		if u := verifChoice("until", N-start+1); u > 0 { // a signature that follows `before`
-			opts["until"] = hist[start+u-1].sig.String()
-			end = start + u
+	}
+	// until: absent, any history entry (older than, equal to or newer than `before`), or a signature
+	// that is not in the history; the run ends with it only if it lies in the run after `before`
+	if u := verifChoice("until", N+2); u > 0 {
+		if u <= N {
+			opts["until"] = hist[u-1].sig.String()
+			if u > start {
+				end = u
+			}
+		} else {
+			opts["until"] = verifC07ESig(200).String()
 		}
 	}
 	effLimit := 1000
